@@ -116,6 +116,24 @@ observations of a round decoded into one reused value (C09: the recovery path ha
 scenarios at all - op `recov` with liveness obligations; C05 flags the change too), a worker lost per contained panic
 (C18 part E: more panics than workers, then a healthy check), and an Increment that blocks its caller once the
 tracker is decided (C20: 150 more blocks after the verdict is fixed).
+Wave 7 (40 changes, two for every property, ids `Cxx-w7-k`) closed the session. 24 of 40 were flagged on the first
+run by the check of the property they were seeded for (two of those with a family added from the seeding report
+minutes earlier, noted in their meta.json), another 8 by a neighbouring property's check on that first run. The 16
+misses, 14 of which the owning check now flags: decoded values that depend on earlier decodes (C02: block keys with
+missing members after a full observation), a block-history buffer rewritten between hook and Encode and a remembered
+byte-limit cut (C03: the history race part with peer validation; history and proposals growing between two
+observations of one ordering seed), upkeep ids assumed unique per conditional upkeep (C04: injected work-id
+generator), a stamp taken from the retained history (C05), records lost to a copying collector and a deadline kept
+across a re-accept (C07 / C08: collector races, re-accepted reports), a proposal limit raised on one side only (C09:
+6 / 7 / 11 conditionals at once), a two-phase Dequeue (C11: real-goroutine race part), a panic promoted to a hard
+failure (C13: batches failing by panic), pooled encode buffers (C15: held bytes), a Close that a poll's own context
+swallows and tick slots leaked by panics (C18: Close mid-poll, six panics in a row), a transactions slice shared by
+all blocks (C19: tagged block content). Two were left to the property that owns the changed function, whose check
+flags them with a failing history: C09-w7-2 (coordinator.Accept: C06) and C12-w7-1 (runner result collector: C13).
+Across the three waves of this session the recurring theme was **something kept from an earlier call** - a memo, a
+pooled buffer, a reused decode target, a remembered height / cut / verdict / block - behind an interface that reads
+as a pure function; the harnesses now routinely (i) use long-lived instances and make an unrelated earlier call,
+(ii) hold on to what a call returned and re-read it after later calls, (iii) let another instance or digest go first.
 A rewritten function usually leaves the translator's subset: the obligation of that unit is then checked
 against the pinned term only and the property is explored as *drifted* (twice the cases, three seeds) - of
 the 45 first-run catches, the translator obligations broke (proof-level catch, then a failing input found by
